@@ -368,6 +368,18 @@ func (l *Listener) Close() error {
 	l.mu.Lock()
 	defer l.mu.Unlock()
 	l.closed = true
+	// connections still in the accept backlog are reset by the kernel when
+	// the listening socket goes away
+	for _, c := range l.q {
+		c.mu.Lock()
+		if !c.localClosed {
+			c.localClosed = true
+			c.closeAt = l.net.Since()
+			c.closeSeq = l.net.NextSeq()
+		}
+		c.mu.Unlock()
+	}
+	l.q = nil
 	l.cond.Broadcast()
 	return nil
 }
